@@ -46,9 +46,10 @@ def check(run):
     from .c06 import depends_on
     depends_on(run, "C10")
     depends_on(run, "C12", {"TYPESTATE", "NOMUT"})
-    depends_on(run, "C06", {"MERGE", "KEYS", "COUNT"})
+    depends_on(run, "C06", {"MERGE", "KEYS", "COUNT", "VALUE"})
     depends_on(run, "C17", {"ORDER", "PROPAGATE"})
     depends_on(run, "C03", {"NEW", "C0"})
+    depends_on(run, "C15", {"CTOR", "DEFAULTS"}, only=lambda rule, inst: inst.startswith("IncrementalSage"))
 
 
 _I = "ixai/explainer/sage/incremental.py"
